@@ -7,6 +7,7 @@ import z3
 
 from symx.api import Harness, Raised, register
 
+from .common import getcell as common_getcell
 from .common import consecutive, in_bin, rising_pairs, snap1d, snapnd, tolerance_band, zsum
 
 # histories: how K values are cut into calls; 'f' = fill(one value), 'nS' = fill_n(S values)
@@ -57,6 +58,11 @@ class C03Fill1D(Harness):
                         continue
                     yield (f"1d-K{K}-M{M}-{_hname(hist)}-w{wk}-k{int(keep)}-g{int(gap)}",
                            dict(K=K, M=M, hist=hist, weights=wk, keep_missed=keep, gap=gap, has_n=any(c[0] == "n" for c in hist)))
+        # a binning that declares its right edge as not included (as fixed_width / integer / pretty do): in 1D the last bin holds its right edge all the same,
+        # for fill, find_bin, fill_n and construction alike
+        for hist in HIST[1] + HIST[2][:3]:
+            yield (f"1d-K{len(_chunks(hist)[-1][1]) + _chunks(hist)[-1][1][0]}-M2-{_hname(hist)}-wint-k1-g0-openright",
+                   dict(K=_chunks(hist)[-1][1][-1] + 1, M=2, hist=hist, weights="int", keep_missed=True, gap=False, has_n=any(c[0] == "n" for c in hist), inc=False))
         # an infinite value (not NaN: it is overflow, with its weight) as the last of K=2 values, in every call structure
         for hist in HIST[2]:
             for wk in ("none", "real"):
@@ -93,7 +99,7 @@ class C03Fill1D(Harness):
         H1 = E.mod("physt.histogram1d").Histogram1D
         SB = E.mod("physt.binnings").StaticBinning
         pairs = [[l, r] for l, r in zip(x["l"], x["r"])]
-        h = H1(SB(pairs), keep_missed=p["keep_missed"])
+        h = H1(SB(pairs, includes_right_edge=p.get("inc", True)), keep_missed=p["keep_missed"])
         obs = {"ret": {}, "fb": {}, "steps": []}
         for kind, idx in _chunks(p["hist"]):
             if kind == "f":
@@ -127,7 +133,7 @@ class C03Fill1D(Harness):
         kw = {}
         if "w" in x:
             kw["weights"] = np.asarray(list(x["w"]), dtype=(int if p["weights"] == "int" else float))
-        b = E.attempt(E.mod("physt._facade").h1, np.asarray(list(x["v"]), dtype=float), SB(pairs), keep_missed=p["keep_missed"], **kw)
+        b = E.attempt(E.mod("physt._facade").h1, np.asarray(list(x["v"]), dtype=float), SB(pairs, includes_right_edge=p.get("inc", True)), keep_missed=p["keep_missed"], **kw)
         obs["batch"] = snap1d(E, b) if not isinstance(b, Raised) else {"raised": b}
         return obs
 
@@ -211,6 +217,12 @@ class C03FillND(Harness):
                         continue
                     yield (f"nd-K{K}-S{'x'.join(map(str, shape))}-i{inc}-{_hname(hist)}-w{wk}-k{int(keep)}",
                            dict(K=K, shape=list(shape), inc=[(inc[k % 2] == "T") for k in range(len(shape))], hist=hist, weights=wk, keep_missed=keep))
+        # per-axis arrays (columns=True), also for square batches; weights of either sign on rows outside every cell (negative missed weight)
+        for hist in (["n2"], ["f", "n1"]):
+            yield (f"nd-K2-S2x1-iTF-{_hname(hist)}-wint-k1-columns", dict(K=2, shape=[2, 1], inc=[True, False], hist=hist, weights="int", keep_missed=True, columns=True))
+        yield ("nd-K3-S1x2-iTF-n3-wnone-k1-columns", dict(K=3, shape=[1, 2], inc=[True, False], hist=["n3"], weights="none", keep_missed=True, columns=True))
+        for hist in (["n2"], ["f", "n1"], ["f", "f"]):
+            yield (f"nd-K2-S2x1-iTF-{_hname(hist)}-wsigned-k1", dict(K=2, shape=[2, 1], inc=[True, False], hist=hist, weights="sreal", keep_missed=True))
         # an axis of three bins separated by two gaps (every junction gapped)
         for hist in ND_HIST[1]:
             for inc in ("TF", "FT"):
@@ -224,9 +236,9 @@ class C03FillND(Harness):
         x = {"x": [[cx.real(f"x{i}_{k}", nan=(i not in in_fill)) for k in range(D)] for i in range(K)]}
         if p["weights"] == "int":
             x["w"] = [cx.pyint(f"w{i}", lo=0) for i in range(K)]
-        elif p["weights"] == "real":
+        elif p["weights"] in ("real", "sreal"):
             x["w"] = [cx.pyfloat(f"w{i}") for i in range(K)]
-            if cx.sym:
+            if cx.sym and p["weights"] == "real":
                 cx.assume(*[w >= 0 for w in x["w"]])
         x["e"] = [[cx.real(f"e{k}_{j}") for j in range(shape[k] + 1)] for k in range(D)]
         if p.get("gapped") is not None:
@@ -244,6 +256,11 @@ class C03FillND(Harness):
                     out.append(z3.Or(vv < e[0], vv > e[-1]))
                     if not p["inc"][k]:
                         on_last.append(vv == e[-1])
+            if p["weights"] == "sreal":
+                # negative weights only on rows outside the bins' bounding box (a negative cell is a different subject: C19)
+                for i in range(K):
+                    box = z3.And([z3.And(cx.t(x["x"][i][k]) >= cx.t(x["e"][k][0]), cx.t(x["x"][i][k]) <= cx.t(x["e"][k][-1])) for k in range(D)])
+                    cx.assume(z3.Implies(box, cx.t(x["w"][i]) >= 0))
             cx.define("outside", z3.Or(out))
             cx.define("on_open_last_edge", z3.Or(on_last) if on_last else z3.BoolVal(False))
         return x
@@ -286,11 +303,14 @@ class C03FillND(Harness):
                     return obs
             else:
                 vals = np.asarray([x["x"][i] for i in idx], dtype=float).reshape((len(idx), D))
+                ckw = {}
+                if p.get("columns"):
+                    vals, ckw = vals.T, {"columns": True}
                 if "w" in x:
                     ws = np.asarray([x["w"][i] for i in idx], dtype=(int if p["weights"] == "int" else float))
-                    r = E.attempt(h.fill_n, vals, weights=ws)
+                    r = E.attempt(h.fill_n, vals, weights=ws, **ckw)
                 else:
-                    r = E.attempt(h.fill_n, vals)
+                    r = E.attempt(h.fill_n, vals, **ckw)
                 if isinstance(r, Raised):
                     obs["raised"] = r
                     return obs
@@ -320,10 +340,7 @@ class C03FillND(Harness):
             l, r = LR[k][j]
             return in_bin(v[i][k], l, r, j == shape[k] - 1 and p["inc"][k])
 
-        def getcell(a, idx):
-            for i in idx:
-                a = a[i]
-            return a
+        getcell = common_getcell
 
         cells_idx = list(itertools.product(*[range(s) for s in shape]))
         incell = [{idx: z3.And([z3.Not(nanrow[i])] + [memb(i, k, idx[k]) for k in range(D)]) for idx in cells_idx} for i in range(K)]
